@@ -158,7 +158,7 @@ def run_recorded(case):
                            (k, phase, ampl, e, "linear" if lin else "sinusoidal", n), sig="c19:rec:kick:%s" % ("lin" if lin else "sin"), metrics=met)
         if not (case["pspread"] or case["aspread"]):
             want = syn + float(np.float32(case["modampl"])) * np.sin(float(np.float32(2 * np.pi * case["modstep"])) * k)
-            tol = 2e-6 * (1 + abs(want)) + 1.5e-7 * k * 2 * np.pi * case["modstep"] * abs(case["modampl"]) + 1e-7 * k * abs(case["modampl"])
+            tol = 2e-6 * (1 + abs(want)) + 1.5e-7 * k * 2 * np.pi * abs(case["modstep"]) * abs(case["modampl"]) + 1e-7 * k * abs(case["modampl"])
             if abs(phase - want) > tol or ampl != 1.0:
                 return Outcome(False, nontriv, cls, "step %d: recorded phase %.8g / amplitude %.8g, configured modulation gives %.8g / 1 (modampl %g modstep %g)" %
                                (k, phase, ampl, want, case["modampl"], case["modstep"]), sig="c19:rec:modulation", metrics=met)
@@ -188,7 +188,7 @@ def recorded_cases(draw):
     c["aspread"] = gen.f32(draw(st.floats(1e-6, 1e-3))) if noise and not c["pspread"] or (noise and draw(st.booleans())) else 0.0
     mod = draw(st.booleans()) or not noise
     c["modampl"] = gen.f32(draw(st.floats(1e-3, 0.3))) if mod else 0.0
-    c["modstep"] = float(draw(st.floats(1e-3, 0.2))) if mod else 0.0
+    c["modstep"] = float(draw(st.floats(1e-3, 0.2)) * draw(st.sampled_from([1.0, 1.0, -1.0]))) if mod else 0.0
     c["napply"] = draw(st.integers(max(1, c["steps"] // 2), c["steps"])) if long else draw(st.integers(1, c["steps"]))
     c["flush_at"] = sorted(set(draw(st.lists(st.integers(0, c["napply"]), min_size=0, max_size=4))))
     if verylong:
@@ -237,7 +237,7 @@ def run_cli(case):
         kk = np.arange(L)
         want = syn + A * np.sin(2 * np.pi * step * kk)
         e = np.abs(ref[:, 0] - want).max()
-        if e > 3e-6 * (1 + abs(syn) + A) + 2e-7 * L * (1 + 2 * np.pi * step) * A or (ref[:, 1] != 1.0).any():
+        if e > 3e-6 * (1 + abs(syn) + A) + 2e-7 * L * (1 + 2 * np.pi * abs(step)) * A or (ref[:, 1] != 1.0).any():
             j = int(np.abs(ref[:, 0] - want).argmax())
             return Outcome(False, nontriv, cls, "recorded phase at step %d is %.8g, configured modulation (%.4g deg, %.4g Hz) gives %.8g" %
                            (j, ref[j, 0], o.get("RFPhaseModAmplitude", 0), o.get("RFPhaseModFrequency", 0), want[j]), sig="c19:cli:modulation")
@@ -252,7 +252,8 @@ def cli_cases(draw):
     d = cfggen.derive(o)
     if mode in ("mod", "both"):
         o["RFPhaseModAmplitude"] = float(draw(st.floats(0.1, 20.0)))
-        o["RFPhaseModFrequency"] = float(d["fs"] * draw(st.floats(0.2, 3.0)))
+        # either sign: a negative frequency is the phase-inverted drive (a negative amplitude is clamped to zero by main)
+        o["RFPhaseModFrequency"] = float(d["fs"] * draw(st.floats(0.2, 3.0)) * draw(st.sampled_from([1.0, 1.0, -1.0])))
     if mode in ("noise", "both"):
         o["RFPhaseSpread"] = float(draw(st.sampled_from([0.0, 0.01, 0.5])))
         o["RFAmplitudeSpread"] = float(draw(st.sampled_from([1e-5, 1e-3])))
